@@ -485,3 +485,12 @@ Definition parse_eml_old : top -> outcome mstate := parse_eml filename_of_old tr
 
 (* ---------- observable printed by the driver (same text as the Go harness) ---------- *)
 Definition is_panic {A : Type} (o : outcome A) : bool := match o with Panic => true | _ => false end.
+
+(* accessors for the extraction driver (record field names may be renamed by the extraction when several
+   models are extracted into one module) *)
+Definition pobs_tuple (p : pobs) : bytes * bytes * bytes * bytes := (p_ct p, p_cs p, p_enc p, p_content p).
+Definition fobs_tuple (f : fobs) : bytes * bytes * bytes := (fo_name f, fo_cid f, fo_bytes f).
+Definition state_tuple (st : mstate)
+  : bytes * bytes * list pobs * list fobs * list fobs * list (bytes * bytes) * (list bytes * list bytes * list bytes * list bytes) :=
+  (m_charset st, m_enc st, m_parts st, m_atts st, m_embs st, m_gen st,
+   (a_from (m_addrs st), a_to (m_addrs st), a_cc (m_addrs st), a_bcc (m_addrs st))).
